@@ -65,8 +65,10 @@ ExpectKids(f) == [p \in 1..Len(Ch[f.node]) |->
 Missing(f) == CHOOSE p \in Need(f.node) \ f.done : TRUE
 
 WhyReturnT(e, f) ==
-  LET n == f.node IN
-  IF e.raw # n /\ e.rawcl = ocl[n] /\ Same(f) /\ ~InPool(e.rawcl)
+  LET n == f.node
+      SameE(ff) == Same(ff) /\ e.fsame   \* incl. the function definitions referred to
+  IN
+  IF e.raw # n /\ e.rawcl = ocl[n] /\ SameE(f) /\ ~InPool(e.rawcl)
        THEN (IF e.ev = "dup" THEN "ok" ELSE "IdentityWhenUnchanged:equal_copy_of_unchanged_node")
   ELSE IF e.ev = "dup" THEN "dup_error_without_created_duplicate"
   ELSE IF e.res # Stored(e.raw, e.rawcl)
@@ -74,10 +76,9 @@ WhyReturnT(e, f) ==
              ELSE "result_replaced_without_equal_predecessor")
   ELSE IF e.ret # e.res THEN "SharedMapsToOne:returned_object_is_not_the_cached_one"
   ELSE IF ~V.ident THEN "ok"
-  ELSE IF Same(f) /\ e.raw # n THEN "IdentityWhenUnchanged:result_is_not_the_input"
-  ELSE IF ~Same(f) /\ ~e.fresh THEN "rebuilt_node_is_an_old_object"
-  ELSE IF ~Same(f) /\ ~e.lbl THEN "rebuilt_node_differs_in_non_array_fields"
-  ELSE IF ~Same(f) /\ e.och # ExpectKids(f) THEN "rebuilt_node_has_wrong_children"
+  ELSE IF SameE(f) /\ e.raw # n THEN "IdentityWhenUnchanged:result_is_not_the_input"
+  ELSE IF ~SameE(f) /\ ~e.lbl THEN "rebuilt_node_differs_in_non_array_fields"
+  ELSE IF ~SameE(f) /\ e.och # ExpectKids(f) THEN "rebuilt_node_has_wrong_children"
   ELSE "ok"
 
 Why(e) ==
@@ -110,7 +111,7 @@ Step(e) ==
     [] e.ev = "hit" -> Hit(e.n, e.x, PosOf(e.n))
     [] e.ev = "collision" -> Collide(e.n, e.x, PosOf(e.n))
     [] e.ev \in {"return", "dup"} ->
-         IF V.family = "transform" THEN ReturnT(e.raw, e.rawcl, <<>>)
+         IF V.family = "transform" THEN ReturnT(e.raw, e.rawcl, <<>>, e.fsame)
          ELSE ReturnO(e.res)
 
 \* what must hold when the whole trace has been replayed
